@@ -28,7 +28,7 @@ REQUIRE = {'writes_DFXPWriter': 100, 'writes_SinglePositioningDFXPWriter': 50, '
            'outputs_parsed': 300, 'meta_in_attribute_value': 50, 'sets_from_readers': 50,
            'inline_positioning_writes': 20, 'force_writes': 20, 'regions_defined': 100,
            'lxml_also_checked': 50, 'unused_regions_possible': 10,
-           'sets_from_styled_documents': 50, 'suite_dfxp_outputs_parsed': 20}
+           'sets_from_styled_documents': 50, 'languages_with_concurrent_runs_written_by_a_merging_writer': 50, 'suite_dfxp_outputs_parsed': 20}
 DFXP_WRITERS = ['DFXPWriter', 'SinglePositioningDFXPWriter', 'LegacyDFXPWriter']
 NCNAME = re.compile(r'^[A-Za-z_][\w.\-]*$')
 
@@ -44,6 +44,10 @@ def gen_opts(rng, writer):
             opts.update(video_width=640, video_height=360)
         if rng.random() < 0.3:
             opts['write_inline_positioning'] = True
+    if writer == 'SinglePositioningDFXPWriter' and rng.random() < 0.5:
+        from vf.gen import geom
+        opts['default_positioning'] = rng.choice([None, {'origin': None, 'extent': None, 'padding': None, 'alignment': None},
+                                                  geom.pct_layout(rng)])
     return opts
 
 
@@ -177,8 +181,9 @@ def check(case, ctx):
         for d in doc['divs']:
             caps = by_lang[d['lang']]['captions']
             n = len(W.caption_runs(caps, 1000, merging=True)) if writer != 'DFXPWriter' else len(caps)
-            lo = n
-            hi = len(caps)
+            lo = hi = n
+            if n != len(caps):
+                ctx.count('languages_with_concurrent_runs_written_by_a_merging_writer')
             if not lo <= len(d['ps']) <= hi:
                 fails.append({'what': 'number of p elements differs from the number of captions / runs',
                               'lang': d['lang'], 'expected_between': [lo, hi], 'got': len(d['ps'])})
